@@ -4,6 +4,7 @@
    keys, the header algorithm is derived from those keys, and the bytes are unaltered. *)
 From Coq Require Import String ZArith NArith List Bool.
 From KM Require Import Base.Bytes Model.Tokens Model.OIDC Proofs.Tokens Proofs.OIDC Proofs.OIDCChannels Proofs.TokensPeer.
+From KM Require Import Model.TokenCarrier Proofs.TokenCarrier.
 Import ListNotations.
 Open Scope Z_scope.
 
@@ -231,6 +232,62 @@ Theorem c04_shared_identity_refuted :
   accepts A now CCliVerify (emit B (1000 * NS) (ACli (b "alice") 600)) = true /\
   accepts A now (CStorage PCache (b "alice") 5000 None) (emit B (1000 * NS) (AStorage (b "alice") 1 (b "h") 5000)) = true.
 Proof. exact shared_identity_refuted. Qed.
+
+(* ---------------------------------------------------------------- the carrier of a presentation (round 4)
+
+   A presentation is (carrier, artefact): the cookie, Authorization: Bearer / bearer / Basic (artefact
+   as password or as user), a query parameter or form field named like the cookie / access_token /
+   token / code, a custom header, the storage row.  [reads c k] is the table of the carriers each
+   consumer looks at ([accepts_via] = the code: an artefact in a carrier the consumer does not read
+   leaves the request unauthenticated).  c04_accept_sound holds for EVERY carrier the code accepts:
+   whatever consumer, carrier, clock and token - acceptance means the carrier is one the consumer
+   reads AND the artefact is genuine, of the consumer's kind, inside the window that consumer tests,
+   names this server (session, CLI, storage) and carries the bound subject / an admissible level. *)
+Theorem c04_accept_sound_any_carrier : forall i now c k t, accepts_via i now c k t = true ->
+  reads c k = true /\
+  genuine (srv i) t /\
+  rd_str (kind_claim c) (t_claims t) = Some (kind_const c) /\
+  window now c (t_claims t) /\
+  (must_name_server c -> names_server (srv i) (t_claims t)) /\
+  subject_bound c (t_claims t).
+Proof. exact accepts_via_sound. Qed.
+
+(* An artefact the consumer's checks refuse (outside its window, of another kind, not genuine, naming
+   another server) is refused in every carrier; one in a carrier the consumer does not read yields
+   the refusal of an unauthenticated request (nothing emitted, nobody named); and among the carriers
+   a consumer reads the answer does not depend on the carrier. *)
+Theorem c04_no_carrier_rescues : forall i now c t, accepts i now c t = false ->
+  forall k, accepts_via i now c k t = false.
+Proof. exact carrier_never_rescues. Qed.
+
+Theorem c04_unread_carrier_unauthenticated : forall i now c k t, reads c k = false ->
+  exec_via i now c k t = refused.
+Proof. exact unread_carrier_refused. Qed.
+
+Theorem c04_carrier_irrelevant : forall i now c k k' t, reads c k = true -> reads c k' = true ->
+  exec_via i now c k t = exec_via i now c k' t.
+Proof. exact carrier_irrelevant. Qed.
+
+(* non-vacuity of the table: every consumer reads its usual carrier, where it is the plain consumer *)
+Theorem c04_usual_carrier : forall i now c t,
+  reads c (usual_carrier c) = true /\ accepts_via i now c (usual_carrier c) t = accepts i now c t.
+Proof. intros i now c t. split; [exact (usual_carrier_read c)|exact (usual_carrier_accepts i now c t)]. Qed.
+
+(* A checkAuth with a bearer branch that verifies signature, issuer, audience, kind, not-before and
+   level but does not compare the signed expiry with the clock (NOT the code): a 16 h session cookie
+   minted at 1000 s is honoured at 100000 s in "Authorization: Bearer" / "bearer"; the code refuses
+   it in every carrier, honours it in the cookie inside its window and ignores the bearer header. *)
+Theorem c04_bearer_branch_without_expiry_refuted :
+  let i := {| srv := srv0; clients := [] |} in
+  let t := emit srv0 (1000 * NS) (ASession (b "alice") 2 57600) in
+  let late := 100000 * NS in
+  accepts_via_bearer_branch i late (CSession 2) KBearer t = true /\
+  accepts_via_bearer_branch i late (CSession 2) KBearerLower t = true /\
+  (exists e, rd_int "exp" (t_claims t) = Some e /\ e * NS < late) /\
+  (forall k, accepts_via i late (CSession 2) k t = false) /\
+  accepts_via i (2000 * NS) (CSession 2) KCookie t = true /\
+  accepts_via i (2000 * NS) (CSession 2) KBearer t = false.
+Proof. exact bearer_branch_without_expiry_refuted. Qed.
 
 (* ---------------------------------------------------------------- non-vacuity *)
 Definition idp0 : idp :=
